@@ -60,6 +60,10 @@ fn fields(d: NaiveDate) -> (i64, u32, u32, u32, u32, i64, u32, i64) {
 
 const ALIASES: &[u32] = &[
     16, 32, 64, 128, 255, 256, 512, 1 << 16, 1 << 24, 1 << 31, u32::MAX - 1, u32::MAX, 1000, 10000,
+    // 7 * x wraps around 2^32 (week * 7): floor(k * 2^32 / 7)
+    613_566_756, 1_227_133_513, 1_840_700_269, 2_454_267_026, 3_067_833_782, 3_681_400_539,
+    // 12 * x and 31 * x wrap (month arithmetic)
+    357_913_941, 715_827_882, 138_547_332,
 ];
 
 /// chain sweep of the years [y0, y1) plus the first day of y1 (overlap with the next unit)
